@@ -60,19 +60,26 @@ Section RemapSem.
       assert (IH' : forall j, j < length a -> forall s s', env_eqv s s' ->
                  (blind (flags_of a j) = true \/ env_xyz s s') -> val a j s = val a j s')
         by (intros; apply IH; auto).
-      destruct n as [c|o|o x|o x y|k|x y z t|v e t|]; simpl in *.
+      destruct n as [c|o|o x|o x y|k|x y z t|x y z t|v e t|]; simpl in *.
       + reflexivity.
       + destruct o; try reflexivity.
         * destruct Hx as [Hx|Hx]; [discriminate Hx | apply Hx].
         * destruct Hx as [Hx|Hx]; [discriminate Hx | apply Hx].
         * destruct Hx as [Hx|Hx]; [discriminate Hx | apply Hx].
         * apply Hv.
-      + f_equal. apply IH'; auto.
-      + destruct Hn as [Hn1 Hn2].
+      + f_equal. apply IH'; auto. apply Hn.
+      + destruct Hn as (Hn1 & Hn2 & _).
         assert (Hb : blind (f_or (getf (all_flags a) x) (getf (all_flags a) y)) = true \/ env_xyz r r') by exact Hx.
         rewrite blind_or in Hb.
         f_equal; apply IH'; auto; destruct Hb as [Hb|Hb]; auto; apply andb_true_iff in Hb; left; apply Hb.
       + destruct Hx as [Hx|Hx]; [discriminate Hx|]. destruct Hx as (-> & -> & ->). reflexivity.
+      + destruct Hn as (Hx1 & Hy1 & Hz1 & Ht1).
+        destruct Hx as [Hx|Hx]; [discriminate Hx|].
+        assert (Ex : val a x r = val a x r') by (apply IH'; auto).
+        assert (Ey : val a y r = val a y r') by (apply IH'; auto).
+        assert (Ez : val a z r = val a z r') by (apply IH'; auto).
+        unfold val in Ex, Ey, Ez. rewrite Ex, Ey, Ez.
+        apply IH'; auto. right; repeat split; reflexivity.
       + destruct Hn as (Hx1 & Hy1 & Hz1 & Ht1).
         rewrite !blind_or in Hx.
         assert (Hb : (blind (getf (all_flags a) x) = true /\ blind (getf (all_flags a) y) = true /\
@@ -144,7 +151,7 @@ Section RemapSem.
     ok_result a res (fun r => val a t (upd_var r v (val a e r))).
   Proof.
     intros Hwf Ht Hv He. unfold mk_apply.
-    destruct (getn a v) as [c|o|o x|o x y|k|x y z t'|v' e' t'|] eqn:Hn; try discriminate.
+    destruct (getn a v) as [c|o|o x|o x y|k|x0 y0 z0 t0|x y z t'|v' e' t'|] eqn:Hn; try discriminate.
     destruct o; try discriminate. intros H; inversion H; subst res; clear H.
     split; [reflexivity|]. apply ok_push; simpl; auto.
   Qed.
